@@ -139,9 +139,12 @@ def runCtor (w : World) (msg id : Nat) (c : Ctor) : Except Err World :=
 def exec (w : World) (msg caller : Nat) (code : Kind) (robust : Bytes) (ctor : Ctor) :
     Except Err (World × Nat) :=
   match alookup caller w.actors with
-  | none => .error .illegalState
+  | none => .error .forbidden
   | some ca =>
-    if !canExec ca.kind code then .error .forbidden
+    -- `actor_dispatch!` → `restrict_internal_api`: Exec (method 2) is below the FRC-42 range, so
+    -- the caller must be a built-in actor other than an EVM contract
+    if ca.kind = .evm ∨ ca.kind = .unknown then .error .forbidden
+    else if !canExec ca.kind code then .error .forbidden
     else match mapAddresses w robust none with
       | .error e => .error e
       | .ok (w1, id, existing) =>
